@@ -346,7 +346,9 @@ LedLine(keys, sb, ai, prefEmpty) ==
          ELSE IF c = 20 THEN LedLine(rest, sb, IF Len(ai) < 127 THEN Append(ai, 9) ELSE ai, prefEmpty)
          ELSE IF c = 4 THEN LedLine(rest, IF ai = <<>> /\ prefEmpty /\ sb # <<>> /\ sb[1] \in {32, 9} THEN Tail(sb) ELSE sb,
                                     IF ai # <<>> THEN SubSeq(ai, 1, Len(ai) - 1) ELSE ai, prefEmpty)
-         ELSE IF c = 22 THEN (IF rest = <<>> THEN <<sb, ai, <<>>, FALSE>> ELSE LedLine(Tail(rest), Append(sb, Head(rest)), ai, prefEmpty))
+         (* ^V takes the next key literally; a literal NUL is the empty string: nothing is inserted *)
+         ELSE IF c = 22 THEN (IF rest = <<>> THEN <<sb, ai, <<>>, FALSE>>
+                              ELSE LedLine(Tail(rest), IF Head(rest) = 0 THEN sb ELSE Append(sb, Head(rest)), ai, prefEmpty))
          ELSE LedLine(rest, Append(sb, c), ai, prefEmpty)
 RECURSIVE LedLoop(_, _, _, _, _, _)
 LedLoop(keys, pref, post, ai, out, aion) ==
